@@ -126,6 +126,12 @@ func c09DHCPFrame(w gen.World, e *c08Env, d c09DHCP) []byte {
 	dstMAC := ref.MAC{0xff, 0xff, 0xff, 0xff, 0xff, 0xff}
 	our := w.HostIP.AsSlice()
 	switch d.Step {
+	case "foreign-offer": // the LAN's own DHCP server answers the station: seen on the wire (67 -> 68), our handler forges a DECLINE
+		m.Op = 2
+		m.YIAddr = [4]byte{192, 168, 0, byte(200 + d.C)}
+		m.Options = append(m.Options, ref.DHCPOpt{Code: 53, Data: []byte{2}}, ref.DHCPOpt{Code: 54, Data: w.RouterIP.AsSlice()}, ref.DHCPOpt{Code: 51, Data: []byte{0, 0, 14, 16}},
+			ref.DHCPOpt{Code: 61, Data: append([]byte{1}, mac[:]...)})
+		return ref.Eth(ref.MAC{0xff, 0xff, 0xff, 0xff, 0xff, 0xff}, w.RouterMAC, 0x0800, ref.IP4(ref.IP4Hdr{TotalLen: -1, TTL: 64, Proto: 17, Checksum: -1, Src: w.RouterIP.As4(), Dst: [4]byte{255, 255, 255, 255}}, ref.UDP(67, 68, -1, 0, m.Encode(true))))
 	case "discover":
 		m.Options = append(m.Options, ref.DHCPOpt{Code: 53, Data: []byte{1}})
 	case "request": // selecting: the address the server offered
@@ -896,7 +902,7 @@ func genC09(t *rapid.T) c09Case {
 		var f c09Frame
 		switch rapid.IntRange(0, 6).Draw(t, "frameSource") {
 		case 6: // a step of a DHCP dialogue; discover + request pairs make leases that later steps and the ticker work on
-			d := c09DHCP{C: rapid.IntRange(0, 3).Draw(t, "dhcpClient"), Step: rapid.SampledFrom([]string{"discover", "discover", "request", "request", "renew", "renew", "decline", "release"}).Draw(t, "dhcpStep")}
+			d := c09DHCP{C: rapid.IntRange(0, 3).Draw(t, "dhcpClient"), Step: rapid.SampledFrom([]string{"discover", "discover", "request", "request", "renew", "renew", "decline", "release", "foreign-offer", "foreign-offer"}).Draw(t, "dhcpStep")}
 			if d.Step == "discover" && rapid.IntRange(0, 2).Draw(t, "thenRequest") != 0 {
 				c.Frames = append(c.Frames, c09Frame{Times: 1, DHCP: &c09DHCP{C: d.C, Step: "discover"}})
 				d.Step = "request"
